@@ -54,6 +54,7 @@ Definition safe (b r : N) (a : act) : Prop :=
   | RmIndex b' => b' <> b
   | MvToTrash b' => b' <> b
   | Tomb b' id' _ => b' <> b \/ id' <> r
+  | TombOrRm b' id' _ => b' <> b \/ id' <> r
   | _ => True
   end.
 
@@ -73,11 +74,21 @@ Proof.
   apply negb_true_iff. apply N.eqb_neq. congruence.
 Qed.
 
+(** a file in which r is alive serves another repository than id' <> r *)
+Lemma proj_alive_others : forall r id' f e,
+  In e (proj r f) -> e_tomb e = false -> id' <> r -> others_alive id' f = true.
+Proof.
+  intros r id' f e He Ht Hne. unfold proj in He. apply filter_In in He. destruct He as [He Hid].
+  apply N.eqb_eq in Hid. unfold others_alive. apply existsb_exists. exists e. split; [exact He|].
+  rewrite Ht. simpl. apply negb_true_iff. apply N.eqb_neq. congruence.
+Qed.
+
 Lemma apply_holds : forall now b c r P a x,
+  (exists e, In e P /\ e_tomb e = false) ->
   safe b r a -> holds b c r P x -> holds b c r P (apply now x a).
 Proof.
-  intros now b c r P a x Hs [f' [Hin [Hb [Hc Hp]]]].
-  destruct a as [b'|b'|b' id' flag|b'|b'|b'|b'|]; simpl in *.
+  intros now b c r P a x [e0 [He0 Ht0]] Hs [f' [Hin [Hb [Hc Hp]]]].
+  destruct a as [b'|b'|b' id' flag|b' id' totr|b'|b'|b'|b'|]; simpl in *.
   - exists f'. repeat split; auto. eapply rm_keeps; eauto.
   - exists f'. repeat split; auto.
   - exists (if N.eqb (f_base f') b' then set_flag id' flag f' else f'). split.
@@ -86,6 +97,23 @@ Proof.
       * apply N.eqb_eq in E. simpl. repeat split; auto.
         rewrite proj_set_flag; [exact Hp|]. destruct Hs as [Hs|Hs]; [congruence|exact Hs].
       * repeat split; auto.
+  - (* servesOtherRepos: r itself is alive in the shard *)
+    destruct (N.eq_dec b' b) as [Eb|Nb].
+    + destruct Hs as [Hs|Hs]; [contradiction|].
+      assert (SO : serves_others b' id' (d_index x) = true).
+      { unfold serves_others. apply existsb_exists. exists f'. split; [exact Hin|].
+        apply andb_true_iff. split; [apply N.eqb_eq; congruence|].
+        apply (proj_alive_others r id' f' e0); [rewrite Hp; exact He0|exact Ht0|exact Hs]. }
+      rewrite SO. simpl.
+      exists (if N.eqb (f_base f') b' then set_flag id' true f' else f'). split.
+      * unfold on_file. apply in_map_iff. exists f'. split; [reflexivity|exact Hin].
+      * destruct (N.eqb (f_base f') b'); simpl; repeat split; auto.
+        rewrite proj_set_flag; [exact Hp|exact Hs].
+    + destruct (serves_others b' id' (d_index x)); simpl.
+      * exists (if N.eqb (f_base f') b' then set_flag id' true f' else f'). split.
+        -- unfold on_file. apply in_map_iff. exists f'. split; [reflexivity|exact Hin].
+        -- destruct (N.eqb (f_base f') b') eqn:E; [apply N.eqb_eq in E; congruence|]. repeat split; auto.
+      * exists f'. repeat split; auto. eapply rm_keeps; eauto.
   - exists (if N.eqb (f_base f') b' then touch now f' else f'). split.
     + unfold on_file. apply in_map_iff. exists f'. split; [reflexivity|exact Hin].
     + destruct (N.eqb (f_base f') b'); repeat split; auto.
@@ -100,10 +128,11 @@ Proof.
 Qed.
 
 Lemma fold_holds : forall now b c r P acts x,
+  (exists e, In e P /\ e_tomb e = false) ->
   Forall (safe b r) acts -> holds b c r P x -> holds b c r P (fold_left (apply now) acts x).
 Proof.
-  intros now b c r P acts. induction acts as [|a t IH]; intros x HF H; [exact H|].
-  simpl. inversion HF; subst. apply IH; [assumption|]. apply apply_holds; assumption.
+  intros now b c r P acts. induction acts as [|a t IH]; intros x HP HF H; [exact H|].
+  simpl. inversion HF; subst. apply IH; [assumption|assumption|]. apply apply_holds; assumption.
 Qed.
 
 (** ---- well-formed index directories *)
@@ -148,15 +177,12 @@ Section Kept.
     rewrite <- Hid, <- Her. eapply wf_simple; eauto.
   Qed.
 
-  Hypothesis Hkind : sm = true \/ f_compound f = false.
-
+  (** a shard of another repository that is not a compound shard has another file name *)
   Lemma simple_other_base : forall s id,
-    In s (filter (fun s => negb (sm && s_compound s)) (group (ix d) id)) -> id <> r -> s_base s <> f_base f.
+    In s (group (ix d) id) -> id <> r -> s_compound s = false -> s_base s <> f_base f.
   Proof.
-    intros s id Hs Hne Hb. apply filter_In in Hs. destruct Hs as [Hs Hk].
-    destruct (other_tenant_compound s id Hs Hne Hb) as [E C].
-    destruct Hkind as [->|Hc]; [|congruence].
-    rewrite E, C in Hk. discriminate.
+    intros s id Hs Hne Hk Hb.
+    destruct (other_tenant_compound s id Hs Hne Hb) as [E C]. congruence.
   Qed.
 
   Lemma plan_safe : Forall (safe (f_base f) r) (plan d repos now sm).
@@ -174,7 +200,9 @@ Section Kept.
       assert (Hne : id <> r) by (intros ->; unfold ix in C; congruence).
       apply in_app_or in Ha. destruct Ha as [Ha|Ha]; apply in_map_iff in Ha; destruct Ha as [s [<- Hs]]; simpl.
       + right. exact Hne.
-      + eapply simple_other_base; eauto.
+      + apply filter_In in Hs. destruct Hs as [Hs _].
+        destruct (s_compound s) eqn:K; simpl; [right; exact Hne|].
+        eapply simple_other_base; eauto.
     - (* assigned repositories *)
       apply Forall_forall. intros a Ha. unfold plan4 in Ha. apply in_flat_map in Ha. destruct Ha as [id [_ Ha]].
       destruct (memN id (trash_keys d now)) eqn:TK.
@@ -202,9 +230,12 @@ Section Kept.
       + apply in_app_or in Ha. destruct Ha as [Ha|Ha].
         * apply in_map_iff in Ha. destruct Ha as [s [<- _]]. simpl. right. exact Hne.
         * apply in_flat_map in Ha. destruct Ha as [s [Hs Ha]].
-          pose proof (simple_other_base s id Hs Hne) as Hb.
-          unfold move_to in Ha. simpl in Ha. destruct Ha as [<-|Ha]; [exact I|].
-          destruct (s_compound s); simpl in Ha; destruct Ha as [<-|[]]; exact Hb.
+          apply filter_In in Hs. destruct Hs as [Hs _].
+          destruct (s_compound s) eqn:K.
+          -- destruct Ha as [<-|[]]. simpl. right. exact Hne.
+          -- pose proof (simple_other_base s id Hs Hne K) as Hb.
+             unfold move_to in Ha. rewrite K in Ha. simpl in Ha.
+             destruct Ha as [<-|[<-|[]]]; [exact I|exact Hb].
     - constructor; [exact I|constructor].
   Qed.
 
@@ -213,6 +244,9 @@ Section Kept.
                f_compound f' = f_compound f /\ proj r f' = proj r f.
   Proof.
     unfold cleanup. apply (fold_holds now (f_base f) (f_compound f) r (proj r f)).
+    - exists e. pose proof He as He'. unfold alive_entries in He'. apply filter_In in He'. destruct He' as [He1 Ht].
+      split; [|apply negb_true_iff; exact Ht].
+      unfold proj. apply filter_In. split; [exact He1|apply N.eqb_eq; exact Her].
     - exact plan_safe.
     - exists f. auto.
   Qed.
@@ -224,15 +258,17 @@ Proof.
   intros. unfold cleanup, plan. repeat rewrite app_assoc. rewrite fold_left_app. reflexivity.
 Qed.
 
-(** ---- the defect that remains (shardMerging = false) and the one that was repaired *)
+(** ---- the two defects that were repaired *)
 Definition ex_dir : dir :=
   mkD [mkF 0 true (-3600) [mkE 1 1 false 1000; mkE 2 2 false 1000]] [] 1.
 
-Theorem assigned_kept_no_merging_refuted :
+(** before the second repair, shardMerging = false: the compound shard of assigned repository 1 and unassigned
+    repository 2 was deleted outright *)
+Theorem assigned_kept_no_merging_before_fix_refuted :
   exists d repos now f e r,
     wf d /\ In f (d_index d) /\ In e (alive_entries f) /\ e_id e = r /\ In r repos /\
     consistent (group (get_shards (d_index d)) r) = true /\
-    d_index (cleanup d repos now false) = [].
+    d_index (cleanup_before_fix2 d repos now false) = [].
 Proof.
   exists ex_dir, [1%N], 0, (mkF 0 true (-3600) [mkE 1 1 false 1000; mkE 2 2 false 1000]), (mkE 1 1 false 1000), 1%N.
   split.
@@ -242,6 +278,11 @@ Proof.
     - intros t f e []. }
   repeat split; simpl; auto.
 Qed.
+
+(** the same directory after the repair: repository 2 is tombstoned, repository 1 untouched *)
+Example ex_dir_after_fix :
+  d_index (cleanup ex_dir [1%N] 0 false) = [mkF 0 true 0 [mkE 1 1 false 1000; mkE 2 2 true 1000]].
+Proof. reflexivity. Qed.
 
 Definition ex_dir2 : dir :=
   mkD [mkF 0 false (-3600) [mkE 2 2 false 1000];
